@@ -123,6 +123,26 @@ fn cff2_deep_fields(out: &mut Vec<Field>, d: &[u8], hs: usize, tl: usize, rng: &
                             fw(out, &format!("CFF2.charstring.flex#g{}", g), s, prog, n);
                         }
                     }
+                    // a whole program: `k` operands and a stem operator first (in a CFF CharString
+                    // the width joins the operands of the first stack clearing operator, and CFF
+                    // allows 48 in all), `0 0 rmoveto`s up to the end of the slot
+                    {
+                        let k = *rng.pick(&[44usize, 46, 47, 48, 48, 49, 50]) & !1;
+                        if e - s >= k + 4 {
+                            let mut prog: Vec<u8> = Vec::with_capacity(e - s);
+                            for j in 0..k {
+                                prog.push(139 + 1 + (j % 3) as u8);
+                            }
+                            prog.push(*rng.pick(&[1u8, 3, 18, 23]));
+                            while prog.len() + 3 <= e - s {
+                                prog.extend_from_slice(&[139, 139, 21]);
+                            }
+                            while prog.len() < e - s {
+                                prog.push(139);
+                            }
+                            fw(out, &format!("CFF2.charstring.stemsThenMoves#g{}", g), s, prog, n);
+                        }
+                    }
                     // many operands before one path operator (CFF2 allows 513 stack entries)
                     let ops: [u8; 10] = [5, 6, 7, 8, 24, 25, 26, 27, 30, 31];
                     let nops = *rng.pick(&[47usize, 48, 49, 52, 96, 200, 512, 513, 514]);
@@ -731,6 +751,21 @@ fn layout_fields(out: &mut Vec<Field>, d: &[u8], rng: &mut Rng, t: &str) {
                         let chain = (t == "GSUB" && real_ty == 6) || (t == "GPOS" && real_ty == 8);
                         if ctx || chain {
                             context_record_fields(out, d, s, chain, k, cnt, rng, t);
+                        }
+                        if t == "GPOS" && real_ty == 5 {
+                            // MarkLigPos: LigatureArray -> LigatureAttach.componentCount (GSUB
+                            // decides how many components a ligature has, GPOS how many it
+                            // has anchors for)
+                            if let Some(lao) = be16(d, s + 10) {
+                                let la = s + lao;
+                                f(out, "GPOS.markLig.ligatureCount", la, 2, n);
+                                if let Some(lc) = be16(d, la) {
+                                    let j = pick_index(rng, lc);
+                                    if let Some(lo) = be16(d, la + 2 + 2 * j) {
+                                        f(out, "GPOS.markLig.componentCount", la + lo, 2, n);
+                                    }
+                                }
+                            }
                         }
                         f(out, &format!("{}.subtable.format", t), s, 2, n);
                         f(out, &format!("{}.subtable.field1", t), s + 2, 2, n);
@@ -1666,6 +1701,23 @@ pub fn locate_glyf(d: &[u8], offsets: &[usize], rng: &mut Rng) -> Vec<Field> {
         }
         if levels >= 2 {
             fw(&mut out, "glyf.composite.fanoutChain", s, block.clone(), n);
+            // same chain ending in an empty glyph (no points, no components: nothing but the
+            // visits themselves is left to count)
+            let empty = offsets.windows(2).position(|w| w[1] == w[0]).filter(|e| *e < g || *e >= g + levels);
+            if let Some(eg) = empty {
+                let mut b2 = block.clone();
+                let last = offsets[g + levels - 1] - s;
+                let mut p = last + 10;
+                while p + 6 <= b2.len() {
+                    let more = b2[p + 1] & 0x20 != 0;
+                    b2[p + 2..p + 4].copy_from_slice(&(eg as u16).to_be_bytes());
+                    p += 6;
+                    if !more {
+                        break;
+                    }
+                }
+                fw(&mut out, "glyf.composite.fanoutChainEmptyLeaf", s, b2, n);
+            }
         }
         if levels >= 3 {
             // same chain closed into a cycle that does not pass through the first glyph: the
